@@ -46,7 +46,10 @@ def to_model(case, io):
         return []
     if "utable" in io:
         return [(11, [io["utable"], io["starts"], EG.fuel_of(case["grammar"]), io["out"]])]
-    return [(1, [io["table"], io["start"], EG.fuel_of(case["grammar"]), io["out"]])]
+    calls = [(1, [io["table"], io["start"], EG.fuel_of(case["grammar"]), io["out"]])]
+    if io.get("pushes"):
+        calls.append((21, [par for par, _ in io["pushes"]]))
+    return calls
 
 
 def model_obs(case, raws, io):
@@ -56,6 +59,13 @@ def model_obs(case, raws, io):
     keys = ["ok", "nodup", "members", "n_out", "n_lang", "n_lang_next", "first_nonmember", "first_dup", "missing"]
     mo = dict(zip(keys, r))
     mo["missing"] = [P.show_prog(p) for p in mo["missing"]]
+    if len(raws) > 1:
+        # Enum/Frontier.children of every recorded popped combination vs what bee search pushed for it
+        pushed = [g for _, g in io["pushes"]]
+        mo["frontier_parents"] = len(pushed)
+        mo["frontier_mismatch"] = [[par, g, m] for (par, g), m in zip(io["pushes"], raws[1]) if g != m][:3]
+        if len(raws[1]) != len(pushed):
+            mo["frontier_mismatch"].append(["length", len(pushed), len(raws[1])])
     return mo
 
 
@@ -72,6 +82,8 @@ def agree(case, io, mo):
         return False
     if mo["n_lang"] != mo["n_lang_next"]:
         raise RuntimeError("fuel too small for the model's language: harness bug")
+    if mo.get("frontier_mismatch"):
+        return False
     return io.get("ended") == "stop" and mo["ok"] == 1
 
 
@@ -119,6 +131,8 @@ def classify(case, io, mo):
         # regression corpus: recorded as handled correctly by the unchanged tree under hash seeds 0-3
         # (tools/okcorpus.py); a failure now is a regression whatever its shape
         return None
+    if mo is not None and mo.get("frontier_mismatch"):
+        return None   # no recorded finding explains a frontier expansion different from Enum/Frontier.children
     if hs_ttcfg_crash(case, io):
         return "c02_heap_search_ttcfg_incomplete"
     if case["enum"] == "bs" and case["weights"]["kind"] != "uniform" and isinstance(io, dict) \
